@@ -120,6 +120,16 @@ theorem crl_profile (H : Hashes) (p : CrlParams) (i : Issuer) :
     · intro d h; simp only [h]; exact ⟨_, rfl, extNode_critical _ _ _⟩
   · intro h; simp [tbsCertList, h]
 
+/-- the same profile read off the *decoded* CRL: every clause of `Spec.c05CrlClauses` (v2,
+    nextUpdate present, AKI and CRL number exactly once and non-critical, IDP critical, no empty
+    revokedCertificates) holds of the encoded TBSCertList for all parameters -/
+theorem crl_profile_decoded (i : Spec.CrlInputs)
+    (hinv : crlInvalid i.p i.issuer = none)
+    (hnp : crlPanics i.p i.issuer = false)
+    (hsize : (encode (tbsCertList i.H i.p i.issuer)).length < 256 ^ 126) :
+    Spec.c05CrlClauses i (encode (tbsCertList i.H i.p i.issuer)) = [] :=
+  Proofs.CrlDecode.c05_crl_clauses_hold i hinv hnp hsize
+
 /-- CSR: version 0, attributes field always present, at most one extension request -/
 theorem csr_profile (p : CertParams) (s : PubKey) (attrs : List Attribute) :
     (∃ a, csrInfo p s attrs = .seq [.prim 0 2 [0], writeDistinguishedName p.dn, spkiNode s, .cons 2 0 a]) ∧
